@@ -22,11 +22,11 @@ def mags(v):
 
 def obligations(ops, outs):
     _, _, name, periods, mult = ops[0]
-    fo = rfam.feeds(ops, outs, 'a')
+    fo = rfam.feeds_since_reset(ops, outs, 'a')
     stream = [v for v, _ in fo]
     n = periods[0] if periods else None
     obs, hist = [], []
-    fb = rfam.feeds(ops, outs, 'b')
+    fb = rfam.feeds_since_reset(ops, outs, 'b')
     for i, (v, o) in enumerate(fo):
         hist += mags(v)
         t = i + 1
@@ -63,7 +63,7 @@ def sym_obs(ops, outs, insts, ex):
     return obs
 
 
-def r_family(mir, name, mode, spec, t, seed, to, kind='any'):
+def r_family(mir, name, mode, spec, t, seed, to, kind='any', reset_prefix=0):
     ps, passume = make_periods(spec)
     from vlib.inds import IND
     mult = z3.Real('mult') if IND[name]['mult'] else None
@@ -73,7 +73,10 @@ def r_family(mir, name, mode, spec, t, seed, to, kind='any'):
         ops = [ops[0], ('new', 'b', 'MAX', tuple(ps), None)] + [o for v in stream for o in (('feed', 'a', v), ('feed', 'b', v))]
     assume = passume + stream_assumptions(stream, kind)
     if mult is not None: assume += [mult >= 0, mult <= 1000]
-    fam = 'R:C09 %s %s periods=%s t=%d' % (name, mode, ','.join(map(str, spec)), t)
+    if reset_prefix and name != 'MIN':
+        pre = make_stream(mode, reset_prefix, 'h'); assume += stream_assumptions(pre, kind)
+        ops = rfam.with_reset_prefix(ops, pre)
+    fam = 'R:C09 %s %s periods=%s t=%d%s' % (name, mode, ','.join(map(str, spec)), t, ' after %d inputs and a reset' % reset_prefix if (reset_prefix and name != 'MIN') else '')
     def wit(ops_, outs_, insts_, ex_):
         fa, fb_ = rfam.feeds(ops_, outs_, 'a'), rfam.feeds(ops_, outs_, 'b')
         return R(fa[-1][1][0]) < R(fb_[-1][1][0]) if len(fa) > 1 and spec[0] > 1 else z3.BoolVal(True)
@@ -93,6 +96,9 @@ def main(chk):
     T = 8 if q else 12
     jobs = []
     J = lambda *a, **k: jobs.append((r_family, (mir,) + a + (chk.seed, to), k))
+    for n in ns[:3]:
+        for nm in ('SD', 'MAD', 'BB', 'SMA', 'WMA'): J(nm, 'scalar', [n], tf(n), reset_prefix=n + 1)
+        J('CE', 'bar', [n], tf(n), kind='lowhigh', reset_prefix=n + 1)
     for n in ns:
         for nm in ('SD', 'MAD', 'MIN', 'BB', 'SMA', 'WMA'): J(nm, 'scalar', [n], tf(n))
         J('CE', 'bar', [n], tf(n), kind='lowhigh')
